@@ -69,7 +69,7 @@ example : SubAdditive (Arr.sporadic 7 3).N ∧ (Arr.sporadic 7 3).WF ∧ (Arr.sp
 
 /-- the iterator-driven constructors (what the driver executes against the real code: the
 horizon is found from what the `DeltaMinIterator` has emitted, which stays faithful when
-`steps_iter` misses increases, findings F2/F3) coincide with the constructors the theorems
+`steps_iter` misses increases — former findings F2/F3, both fixed in the Rust code) coincide with the constructors the theorems
 above speak about, for every well-formed model with exact steps (`from_arrival_bound_until`:
 for horizons within the range of `u64` durations) -/
 theorem iterator_driven_constructors_agree (a : Arr) (hwf : a.WF) (hex : a.Exact) :
